@@ -1,4 +1,5 @@
 """C20 — driver contract: exit status, all-or-nothing output, flags (DESIGN §4 C20)."""
+import re
 from hir import (nodes, walk, fn_body, callee, call_args, last, line_of, peel, peel_clone, pp, norm_path, pat_alternatives,
                  pat_variant, pat_bindings, find_formats)
 from engines import matches_on, arm_alternatives, ty_is
@@ -43,6 +44,69 @@ def run(F, rep, tier):
     prelude_yields(F, rep)
 
 
+def nonempty_errors(F, rep, rule="EXIT"):
+    """main() fails iff the error list it got is not empty - `Err(vec![])` anywhere in the pipeline is therefore a silent
+    success with nothing written.  Every `Err(<vector>)` built in the parser, the compiler and the driver is classified:
+    a `vec![..]` literal with at least one element; a vector returned under a test that it is not empty; the cycle report
+    (whose non-emptiness is the CYCLE obligations of C11, repeated here)."""
+    import c11
+    from hir import walk
+    from irtpl import vec_macro_elems
+    n = 0
+    bad = []
+    for fn in F.own_fns(["sylt", "sylt_compiler", "sylt_parser"]):
+        if "::test" in fn["_path"]:
+            continue
+        for c, parents in walk(fn_body(fn)):
+            if not (c.get("k") == "Call" and (callee(c) or "").endswith("Result::Err") and c["args"]):
+                continue
+            a = peel(c["args"][0])
+            t = a.get("ty") or ""
+            if not t.startswith("alloc::vec::Vec<"):
+                continue
+            n += 1
+            els = vec_macro_elems(a)
+            if els is not None:
+                if len(els) >= 1:
+                    continue
+                bad.append((fn, c, "an empty vec![]"))
+                continue
+            fname = last(fn["_path"], 2)
+            if fname == "order::recurse" and callee(a) and callee(a).endswith("Vec::new"):
+                continue      # the cycle report starts empty: CYCLE|order::recurse|cycle-list-non-empty
+            # returned under a test that it is not empty
+            txt = pp(a).replace(".clone()", "")
+            guarded_ = False
+            for i, p_ in enumerate(parents):
+                if p_.get("k") != "If":
+                    continue
+                cnd = peel(p_["c"])
+                neg = False
+                if cnd.get("k") == "Unary" and cnd.get("op") == "Not":
+                    neg, cnd = True, peel(cnd["e"])
+                if cnd.get("k") == "MethodCall" and cnd["m"] == "is_empty" and pp(cnd["recv"]).replace(".clone()", "") == txt:
+                    nxt = parents[i + 1] if i + 1 < len(parents) else c
+                    in_then = any(x is nxt for x in nodes(p_["t"]))
+                    if (neg and in_then) or (not neg and not in_then):
+                        guarded_ = True
+            if guarded_:
+                continue
+            # compile(): the errors recorded for the members of a dependency cycle
+            arm_of_cycle = any(p_.get("k") == "Match" and callee(peel(p_["scrut"])) == "sylt_compiler::dependency::initialization_order"
+                               for p_ in parents)
+            if arm_of_cycle:
+                continue      # CYCLE|Compiler::compile|one-error-per-cycle-member
+            bad.append((fn, c, "`%s`" % pp(a)[:40]))
+    for fn, c, what in bad:
+        rep.ob(rule, "%s|Err(%s)|non-empty" % (last(fn["_path"], 2), re.sub(r"[^A-Za-z0-9_.!\[\]]", "", what)[:30]), False,
+               "%s returns Err(%s) without anything that makes the vector non-empty: an error result that carries no error is "
+               "treated as success by main() (exit status 0, nothing written)" % (last(fn["_path"], 2), what), line_of(c))
+    rep.ob(rule, "Err-vectors|non-empty-census", not bad, "%d `Err(<vector>)` constructions: literal vec![..] with elements, "
+           "vectors returned under a not-empty test, and the cycle report" % n, None, sites=n)
+    rep.floor(rule, "Err(<vector>) constructions", n, 60)
+    c11.cycle_nonempty(F, rep, rule)
+
+
 def exit_status(F, rep):
     fn = F.fn("sylt-bin::main")
     rep.analysed(fn)
@@ -83,6 +147,7 @@ def exit_status(F, rep):
     else:
         is_tail = False
     rep.ob("EXIT", "main|empty=>Ok", ok_then and is_tail, "no errors => main returns Ok(()) (exit status 0)", fn["sp"])
+    nonempty_errors(F, rep)
     rep.ob("EXIT", "main|errors=>Err", ok_else and is_tail, "any error => main returns Err (non-zero exit status)", fn["sp"])
     rep.ob("EXIT", "main|prints-every-error", prints, "every error of the list is printed", fn["sp"])
     # usage
